@@ -287,7 +287,16 @@ def _wrap_body_in_lock(qual: str):
     return edit
 
 
+GENERIC_FILES = ['permuta/perm_sets/permset.py']
+
+
 def variants():
+    from ..selftest import generic_silent
+
+    return _variants() + generic_silent(GENERIC_FILES)
+
+
+def _variants():
     from ..selftest import V, custom, insert_stmt, reformat_only, rename_local, replace_expr, replace_stmt, unwrap_with
 
     PS = "permuta/perm_sets/permset.py"
